@@ -16,7 +16,8 @@ ReadNow ==
          rows == mem \o FoldSet(LAMBDA s, acc : acc \o passive[s].evs, <<>>, snap)
                      \o FoldSet(LAMBDA s, acc : acc \o (IF s \in DOMAIN dirs THEN dirs[s] ELSE <<>>), <<>>, segs)
      IN hist' = Append(hist, [a |-> "read", before |-> 1..nst, selection |-> SeqSet(rows), count |-> Len(rows),
-                              stage |-> job.stage, passives |-> Cardinality(snap),
+                              stage |-> job.stage, passives |-> Cardinality(snap), partial |-> job.stage = "writing",
+                              partial_evs |-> IF job.stage = "writing" THEN SeqSet(passive[job.seg].evs) ELSE {},
                               inmem |-> SeqSet(mem \o FoldSet(LAMBDA s, acc : acc \o passive[s].evs, <<>>, snap)),
                               ondisk |-> SeqSet(FoldSet(LAMBDA s, acc : acc \o (IF s \in DOMAIN dirs THEN dirs[s] ELSE <<>>), <<>>, segs))])
   /\ UNCHANGED vars
@@ -28,7 +29,8 @@ GenNext ==
   /\ Len(hist) < GenLen
   /\ IF MustRecv THEN FlushRecv /\ hist' = Append(hist, [a |-> "recv", seg |-> Head(queue)])
      ELSE \/ Store /\ hist' = Append(hist, [a |-> "store", k |-> nst + 1])
-          \/ nst >= HoldUntil /\ FlushWrite /\ hist' = Append(hist, [a |-> "write", seg |-> job.seg])
+          \/ nst >= HoldUntil /\ FlushWriteBegin /\ hist' = Append(hist, [a |-> "wbegin", seg |-> job.seg])
+          \/ FlushWrite /\ hist' = Append(hist, [a |-> "write", seg |-> job.seg])
           \/ FlushPublish /\ hist' = Append(hist, [a |-> "publish", seg |-> job.seg])
           \/ FlushClear /\ hist' = Append(hist, [a |-> "clear", seg |-> job.seg])
           \/ FlushClean /\ hist' = Append(hist, [a |-> "clean", seg |-> job.seg])
